@@ -303,8 +303,7 @@ void Polygon::fillet(const Array<double> radii, double tolerance) {
 
             uint64_t n = 1;
             if (radius > 0) {
-                n = arc_num_points(fabs(a1 - a0), radius, tolerance);
-                if (n == 0) n = 1;
+                n = 1 + arc_num_points(fabs(a1 - a0), radius, tolerance);
             }
 
             point_array.ensure_slots(n);
